@@ -5,6 +5,7 @@ import (
 	"errors"
 	"fmt"
 	"strings"
+	"unicode/utf8"
 
 	"github.com/wollac/iota-crypto-demo/pkg/bech32/internal/base32"
 )
@@ -80,6 +81,13 @@ func Decode(s string) (string, []byte, error) {
 	for i, c := range s[:hrpLen] {
 		if !isValidHRPChar(c) {
 			return "", nil, &SyntaxError{fmt.Errorf("%w: not US-ASCII character in human-readable part", ErrInvalidCharacter), i}
+		}
+	}
+	// validate that the data part only contains US-ASCII characters; otherwise the case folding
+	// below could map other Unicode characters (e.g. U+212A KELVIN SIGN) onto charset characters
+	for i := hrpLen + 1; i < len(s); i++ {
+		if s[i] >= utf8.RuneSelf {
+			return "", nil, &SyntaxError{fmt.Errorf("%w: non-charset character in data part", ErrInvalidCharacter), i}
 		}
 	}
 	// validate that the case of the entire string is consistent
